@@ -47,7 +47,10 @@ def shard(S, p):
             shape[rng.randrange(len(shape))] = 1
         vals = GS.values(rng, O.prod(shape), rng.choice(["positive", "positive", "int"]))
         vals = [v + 1.0 for v in vals]
-        if rng.random() < 0.3:
+        if rng.random() < 0.15:
+            vals = [v * 2.0 ** -60 for v in vals]            # a spectrum in very small units: its total is far below f64::EPSILON
+            S.count("tiny_total_inputs")
+        elif rng.random() < 0.3:
             tot = sum(vals)
             vals = [v / tot for v in vals]        # an input that is already a frequency spectrum
             S.count("normalized_inputs")
